@@ -25,6 +25,8 @@ structure St where
   flags : Nat             -- `Inner.flags`
   voters : List Voter
   woken : Bool := false   -- `waker.wake()` has been called
+  parked : Bool := false  -- the receiver's waker is registered in the `AtomicWaker` (a poll returned `Pending`)
+  wakes : Nat := 0        -- wake-ups delivered to a registered waker
   deriving Repr
 
 def allMask (n : Nat) : Nat := 2 ^ n - 1          -- `NumParties::all()`; `u8::MAX` for 8
@@ -57,7 +59,9 @@ def setVoter (s : St) (i : Nat) (v : Voter) : St := { s with voters := s.voters.
 def doVote (s : St) (i : Nat) (v : Voter) (pc : PC) : St × Res :=
   let before := s.flags
   let s1 := setVoter { s with flags := before ||| flagOf i } i { voted := true, pc := pc }
-  if before = inverseOf s.n i then ({ s1 with woken := true }, .unanimous) else (s1, .pending)
+  if before = inverseOf s.n i then
+    ({ s1 with woken := true, parked := false, wakes := s.wakes + (if s.parked then 1 else 0) }, .unanimous)
+  else (s1, .pending)
 
 def stepAct (s : St) (i : Nat) (a : Act) : St × Res :=
   match s.voters[i]? with
@@ -92,7 +96,7 @@ def stepAct (s : St) (i : Nat) (a : Act) : St × Res :=
 
 def step (s : St) : Ev → St × Res
   | .act i a => stepAct s i a
-  | .poll => (s, if s.flags = allMask s.n then .ready else .notReady)
+  | .poll => if s.flags = allMask s.n then (s, .ready) else ({ s with parked := true }, .notReady)
 
 def run (s : St) (evs : List Ev) : St := evs.foldl (fun s e => (step s e).1) s
 
@@ -109,7 +113,7 @@ def apiRescind (s : St) (i : Nat) : St × Res :=
   let r := stepAct s i .rescind
   if r.2 = .cont then stepAct r.1 i .cas else r
 
-def apiLine (s : St) (line : String) : St × String :=
+def apiLine0 (s : St) (line : String) : St × String :=
   match words line with
   | ["vote", i] => match i.toNat? with
     | some i => let r := stepAct s i .vote; (r.1, r.2.render)
@@ -123,6 +127,11 @@ def apiLine (s : St) (line : String) : St × String :=
   | ["poll"] => let r := step s .poll; (r.1, r.2.render)
   | _ => (s, "bad-op")
 
+/-- as `apiLine0`, with ` wake` appended when the operation woke the parked receiver -/
+def apiLine (s : St) (line : String) : St × String :=
+  let r := apiLine0 s line
+  (r.1, if r.1.wakes > s.wakes then r.2 ++ " wake" else r.2)
+
 /-! ### Observable-level monitor (sequential API traces) -/
 
 structure Mon where
@@ -130,11 +139,12 @@ structure Mon where
   out : List Bool := []      -- outstanding vote (or dropped) per party
   alive : List Bool := []
   reached : Bool := false    -- every party had an outstanding vote at the same moment
+  parked : Bool := false     -- the receiver's last poll returned `Pending` and it has not been woken since
   deriving Repr
 
 def Mon.all (m : Mon) : Bool := m.out.all id
 
-def Mon.step (m : Mon) (line : String) (out : String) : Mon × Option String :=
+def Mon.step0 (m : Mon) (line : String) (out : String) : Mon × Option String :=
   match words line with
   | ["new", n] => let n := n.toNat?.getD 0; ({ n := n, out := List.replicate n false, alive := List.replicate n true }, none)
   | ["vote", i] =>
@@ -163,5 +173,24 @@ def Mon.step (m : Mon) (line : String) (out : String) : Mon × Option String :=
     else if out = "notready" then (m, if m.reached then some "receiver-not-ready-though-all-voted-or-dropped" else none)
     else (m, some "unexpected-result")
   | _ => (m, some "unparsable")
+
+/-- The full monitor: `Mon.step0` on the result, plus the wake-up discipline (` wake` suffix = the operation woke the
+waker registered by the receiver's last pending poll). -/
+def Mon.step (m : Mon) (line : String) (out : String) : Mon × Option String :=
+  let ws := words out
+  let res := ws.headD ""
+  let wk := ws.contains "wake"
+  let r := Mon.step0 m line res
+  let m1 := r.1
+  let becameAll := m1.reached && !m.reached
+  let m2 := if res = "notready" then { m1 with parked := true } else if wk then { m1 with parked := false } else m1
+  match r.2 with
+  | some e => (m2, some e)
+  | none =>
+    if (words line).head? = some "new" then ({ m1 with parked := false }, none)
+    else if wk && !m.parked then (m2, some "wake-without-parked-receiver")
+    else if wk && !becameAll then (m2, some "wake-without-unanimity")
+    else if becameAll && m.parked && !wk then (m2, some "lost-wakeup-receiver-parked")
+    else (m2, none)
 
 end SwimVerif.Coord
